@@ -130,6 +130,19 @@ func c31HostCall(op PVM.OperationType, sel uint64, self types.ServiceID, delta t
 	return regs[7], append([]byte(nil), mem.Pages[0x30].Value[8:8+len(c31Blob)+4]...), out.ExitReason, gas
 }
 
+// c31SelKey classifies a service selector ω7 that must not find the preimage.
+func c31SelKey(sel uint64) string {
+	switch {
+	case sel == ^uint64(0):
+		return "selector=self-without-preimage"
+	case sel >= 1<<32 && uint32(sel) == uint32(c31Svc):
+		return "selector>=2^32;low-32-bits=holder-id"
+	case sel >= 1<<32:
+		return "selector>=2^32"
+	}
+	return "selector=other-or-missing-account"
+}
+
 func c31CheckLookup(r *vlib.Run, c c31Case) {
 	acc, h := c31LookupAccount(c.Rec, c.Store)
 	r.Eval()
@@ -198,14 +211,28 @@ func c31CheckLookup(r *vlib.Run, c c31Case) {
 		self types.ServiceID
 		hit  bool // the selector designates the account holding the preimage
 	}
-	calls := []hc{
-		{"PVM.historicalLookup", PVM.HistoricalLookupOp, ^uint64(0), c31Svc, true},
-		{"PVM.historicalLookup", PVM.HistoricalLookupOp, uint64(c31Svc), c31OtherSvc, true},
-		{"PVM.historicalLookup", PVM.HistoricalLookupOp, uint64(c31NoSvc), c31Svc, false},
-		{"PVM.historicalLookup", PVM.HistoricalLookupOp, ^uint64(0), c31OtherSvc, false},
-		{"PVM.lookup", PVM.LookupOp, ^uint64(0), c31Svc, true},
-		{"PVM.lookup", PVM.LookupOp, uint64(c31Svc), c31OtherSvc, true},
-		{"PVM.lookup", PVM.LookupOp, uint64(c31NoSvc), c31Svc, false},
+	// ω7 lattice: self via 2^64-1, an existing id, a missing id, and values whose low 32 bits equal the id of the
+	// service that holds the preimage (2^32 + id, 2^63 + id), 2^64-2, 2^32-1: only the full 64-bit value names a service
+	holder := uint64(c31Svc)
+	var calls []hc
+	for _, op := range []struct {
+		name string
+		op   PVM.OperationType
+	}{{"PVM.historicalLookup", PVM.HistoricalLookupOp}, {"PVM.lookup", PVM.LookupOp}} {
+		calls = append(calls,
+			hc{op.name, op.op, ^uint64(0), c31Svc, true},
+			hc{op.name, op.op, holder, c31OtherSvc, true},
+			hc{op.name, op.op, holder, c31Svc, true}, // own id given explicitly
+			hc{op.name, op.op, uint64(c31NoSvc), c31Svc, false},
+			hc{op.name, op.op, ^uint64(0), c31OtherSvc, false},
+			hc{op.name, op.op, uint64(c31OtherSvc), c31Svc, false},
+			hc{op.name, op.op, 1<<32 + holder, c31OtherSvc, false},
+			hc{op.name, op.op, 1<<32 + holder, c31Svc, false},
+			hc{op.name, op.op, 1<<63 + holder, c31OtherSvc, false},
+			hc{op.name, op.op, ^uint64(0) - 1, c31OtherSvc, false},
+			hc{op.name, op.op, ^uint64(0) - 1, c31Svc, false},
+			hc{op.name, op.op, 1<<32 - 1, c31OtherSvc, false},
+		)
 	}
 	for ci, k := range calls {
 		f, l := uint64(0), uint64(len(c31Blob))
@@ -230,12 +257,16 @@ func c31CheckLookup(r *vlib.Run, c c31Case) {
 			// lookup reads a_p only: found iff the preimage is stored in the designated account
 			want := k.hit && c.Store != 1
 			if found != want {
-				r.Violation(k.name, map[bool]string{true: "unavailable-returned", false: "available-not-returned"}[found], key, fmt.Sprintf("%s, selector %#x: ω7=%#x, stored=%v", desc, k.sel, w7, want), c)
+				vk := key
+				if !k.hit {
+					vk = c31SelKey(k.sel)
+				}
+				r.Violation(k.name, map[bool]string{true: "unavailable-returned", false: "available-not-returned"}[found], vk, fmt.Sprintf("%s, selector %#x (self %d): ω7=%#x, expected found=%v", desc, k.sel, k.self, w7, want), c)
 				continue
 			}
 		} else {
 			if !k.hit && found {
-				r.Violation(k.name, "unavailable-returned", "other-account", fmt.Sprintf("%s, selector %#x (an account without the preimage / no account): ω7=%#x", desc, k.sel, w7), c)
+				r.Violation(k.name, "unavailable-returned", c31SelKey(k.sel), fmt.Sprintf("%s, selector %#x, self %d (the 64-bit value does not name a service holding the preimage): ω7=%#x", desc, k.sel, k.self, w7), c)
 				continue
 			}
 			if k.hit {
